@@ -6,6 +6,7 @@ package c18
 import (
 	"context"
 	"fmt"
+	"reflect"
 	"strings"
 
 	metav1 "k8s.io/apimachinery/pkg/apis/meta/v1"
@@ -27,8 +28,8 @@ const invalidCond = "package-operator.run/Invalid"
 
 // template alphabet
 var templates = map[string]string{
-	"ok":            "apiVersion: verif.example/v1\nkind: Widget\nmetadata:\n  name: out\nspec:\n  x: \"{{ .config.v }}\"\n  second: \"{{ get .config \"w\" | default \"none\" }}\"\n",
-	"okns":          "apiVersion: verif.example/v1\nkind: Widget\nmetadata:\n  name: out\n  namespace: ns\nspec:\n  x: \"{{ .config.v }}\"\n  second: \"{{ get .config \"w\" | default \"none\" }}\"\n",
+	"ok":            "apiVersion: verif.example/v1\nkind: Widget\nmetadata:\n  name: out\nspec:\n  x: \"{{ .config.v }}\"\n  second: \"{{ get .config \"w\" | default \"none\" }}\"\n{{ if eq (toString .config.v) \"2\" }}  extra: present\n  list: [a, b]\n{{ else }}  list: [a]\n{{ end }}",
+	"okns":          "apiVersion: verif.example/v1\nkind: Widget\nmetadata:\n  name: out\n  namespace: ns\nspec:\n  x: \"{{ .config.v }}\"\n  second: \"{{ get .config \"w\" | default \"none\" }}\"\n{{ if eq (toString .config.v) \"2\" }}  extra: present\n  list: [a, b]\n{{ else }}  list: [a]\n{{ end }}",
 	"missingkey":    "apiVersion: verif.example/v1\nkind: Widget\nmetadata:\n  name: out\nspec:\n  x: \"{{ .config.nope.deeper }}\"\n",
 	"noparse":       "apiVersion: verif.example/v1\nkind: Widget\nmetadata:\n  name: out\nspec:\n  x: \"{{ .config.v \n",
 	"foreignns":     "apiVersion: verif.example/v1\nkind: Widget\nmetadata:\n  name: out\n  namespace: other\nspec:\n  x: \"{{ .config.v }}\"\n",
@@ -215,10 +216,18 @@ func check(sc scenario) func(before *world.World, ev world.Event, pass *world.Pa
 		if o == nil {
 			bad("target-missing", "valid template and sources but the target object does not exist after the pass")
 		} else {
-			gx, _ := world.Nested(o.Content, "spec", "x")
-			gy, _ := world.Nested(o.Content, "spec", "second")
-			if fmt.Sprint(gx) != fmt.Sprint(wantX) || fmt.Sprint(gy) != fmt.Sprint(wantY) {
-				bad("target-stale", "target has x=%v y=%v but the sources say x=%v y=%v", gx, gy, wantX, wantY)
+			// reference rendering of the ok/okns templates, written from the template text
+			want := map[string]any{"x": fmt.Sprint(wantX), "second": fmt.Sprint(wantY), "list": []any{"a"}}
+			if fmt.Sprint(wantY) == "" {
+				want["second"] = "none" // sprig default replaces the empty string
+			}
+			if fmt.Sprint(wantX) == "2" {
+				want["extra"] = "present"
+				want["list"] = []any{"a", "b"}
+			}
+			got, _ := world.Nested(o.Content, "spec")
+			if !reflect.DeepEqual(got, any(want)) {
+				bad("target-stale", "target spec is %v but the template rendered with the current sources (x=%v y=%v) gives %v", got, wantX, wantY, want)
 			}
 		}
 		if s2 == nil && pass.Result.RequeueAfter <= 0 {
@@ -304,13 +313,15 @@ func system(sc scenario) *world.System {
 						})
 					} else {
 						cur, _ := world.Nested(o.Content, "data", src.field)
-						next := "2"
-						if cur == "2" {
-							next = "1"
+						for _, next := range []string{"1", "2", ""} {
+							if cur == next {
+								continue
+							}
+							next := next
+							tp("user:edit-source:"+src.k.Name+"="+next, func(w *world.World) {
+								_ = w.Edit(src.k, func(c map[string]any) { c["data"].(map[string]any)[src.field] = next })
+							})
 						}
-						tp("user:edit-source:"+src.k.Name+"="+next, func(w *world.World) {
-							_ = w.Edit(src.k, func(c map[string]any) { c["data"].(map[string]any)[src.field] = next })
-						})
 						tp("user:delete-source:"+src.k.Name, func(w *world.World) { _ = w.S.Delete(src.k, kmodel.DeleteOpts{}) })
 					}
 				}
